@@ -2294,6 +2294,49 @@ def readable_op(op):
     return op[0] + "(" + ", ".join(readable(x) for x in op[1:]) + ")"
 
 
+def effects_dirty():
+    """Names of the effect-probe lists (regenerated on this run) that are not empty."""
+    import re as _re
+    import checklib as _cl
+    try:
+        eff = open(os.path.join(_cl.LEAN, "SV", "Gen", "Effects.lean"), encoding="utf-8").read()
+    except OSError:
+        return []
+    return [n for n in ("sharedWritesAfterImport", "moduleStateWrites", "sharedScratch")
+            if _re.search(r"def " + n + r" : List String := \[\"", eff)]
+
+
+def thread_search_if_dirty(run, pairs):
+    """The properties about single calls are stated for every use of the library.  When the effect probe of
+    this run saw library calls write state that all threads share (never on the unchanged tree), the
+    property's own calls are also run in two threads under the line-level scheduler - warm, and as first
+    calls of a fresh interpreter - and a schedule whose results differ from running alone is reported."""
+    dirty = effects_dirty()
+    if not dirty or run.violations:
+        return
+    import sched
+    run.notes.append("effect probe: " + ", ".join(dirty) + " non-empty -> the property's calls under the "
+                     "line-level thread scheduler")
+    for ops in pairs:
+        n, found = sched.search(ops, limit=run.scale(120, 1000))
+        run.count(n, key=("threads",) + tuple(map(tuple, ops)), tag="schedules (shared writes seen)")
+        if found:
+            sch, got, want = found
+            run.violation("two concurrent calls", [readable_op(o) for o in ops], got, want,
+                          "line-level schedule search on the real code (the effect probe saw shared writes)",
+                          kind="schedule", ops=ops, schedule=sch, expected_alone=want)
+            return
+    for ops in pairs[:2]:
+        n, found = sched.search_cold(ops, limit=run.scale(32, 400))
+        run.count(n, key=("threads-cold",) + tuple(map(tuple, ops)), tag="cold schedules (shared writes seen)")
+        if found:
+            sch, got, want = found
+            run.violation("two concurrent first calls in a fresh process", [readable_op(o) for o in ops], got,
+                          want, "line-level schedule search, every schedule in a fresh interpreter",
+                          kind="schedule", ops=ops, schedule=sch, expected_alone=want, cold=True)
+            return
+
+
 @prop("C14",
       rule="pairs of calls routed to the same algorithm object (methods whose code reads the scratch cell: 02, "
            "04, 07, 14, 16, 23, 25; an accepting and a rejecting account each), pairs of first lookups, and two "
@@ -2379,14 +2422,7 @@ def c14(run):
                           schedule=sch, expected_alone=want)
     # the effect probe saw the library write shared state after import (lazily built tables, caches …):
     # look for an interleaving of the FIRST uses in a process, every schedule in a fresh interpreter
-    import checklib as _cl
-    eff = ""
-    try:
-        eff = open(os.path.join(_cl.LEAN, "SV", "Gen", "Effects.lean"), encoding="utf-8").read()
-    except OSError:
-        pass
-    dirty = [n for n in ("sharedWritesAfterImport", "moduleStateWrites", "sharedScratch")
-             if _re.search(r"def " + n + r" : List String := \[\"", eff)]
+    dirty = effects_dirty()
     if dirty:
         run.notes.append("effect probe: " + ", ".join(dirty) + " non-empty -> cold-start schedule search")
         bad_be = "BE" + iban_check_digits("BE", "539007547035") + "539007547035"
@@ -2765,3 +2801,23 @@ def c03(run):
             run.violation("IBAN(text with one typing error)", [t], a, "rejected",
                           "single same-kind substitution / adjacent transposition of a valid IBAN", op=f,
                           expected_line="err")
+
+
+def threads_for(pid, run):
+    """Called after the dynamic part of a property about single calls (see thread_search_if_dirty)."""
+    if pid in ("C13", "C14", "C15", "C16", "C17", "C18"):
+        return
+    S = Streams(run.seed * 1000 + 99)
+    v1, v2 = S.iban("DE"), S.iban("GB")
+    typo = v1[:10] + ("1" if v1[10] != "1" else "2") + v1[11:]
+    bad_be = "BE" + iban_check_digits("BE", "539007547035") + "539007547035"
+    bad_es = "ES" + iban_check_digits("ES", "21000418460200051332") + "21000418460200051332"
+    A = [["iban.new", hx(v1), "F", "F"], ["iban.new", hx(typo), "F", "F"]]
+    B = [["iban.from_bban", hx("DE"), hx(v1[4:])], ["iban.from_bban", hx("GB"), hx(v2[4:])]]
+    C = [["iban.new", hx(bad_be), "F", "T"], ["iban.new", hx(bad_es), "F", "T"]]
+    D = [["iban.generate", hx("BE"), hx("539"), hx("0075470"), hx("")], ["iban.new", hx(bad_be), "F", "T"]]
+    E = [["bic.from_bank_code", hx("DE"), hx("43060967")], ["bban.bank", hx("DE"), hx("370400440532013000")]]
+    F = [["bic.new", hx("GENODEM1GLS"), "F", "F"], ["bic.new", hx("GENODEM1GL"), "F", "F"]]
+    pairs = {"C01": [A, B], "C02": [B, A], "C03": [A, B], "C04": [F], "C05": [A, C, F], "C06": [C, D],
+             "C07": [C, E], "C08": [D, B], "C09": [D, C], "C10": [A, F], "C11": [A, E], "C12": [E]}[pid]
+    thread_search_if_dirty(run, pairs)
